@@ -290,7 +290,11 @@ func runC13(c *Ctx) {
 		if u.site != "" {
 			caSite = u.site
 		}
-		c.slot(okCA, 1, "entry/ca-or-self-signed", "per entry: every certificate of the file is a CA certificate or self-signed (disjunctive gate inside a loop over all certificates, not bypassable)", caSite, "a leaf certificate that is not self-signed is accepted")
+		caDetail := "a leaf certificate that is not self-signed is accepted"
+		if !okCA && u.early != "" {
+			caSite, caDetail = u.early, "an iteration of the loop over the certificates can end in a successful return: the certificates after that one are accepted unjudged"
+		}
+		c.slot(okCA, 1, "entry/ca-or-self-signed", "per entry: every certificate of the file is a CA certificate or self-signed (disjunctive gate inside a loop over all certificates, not bypassable)", caSite, caDetail)
 	}
 	// tsa: every certificate a self-signed root
 	tsaC, _ := w.constString("verifier/truststore", "TypeTSA")
